@@ -313,7 +313,7 @@ def r10d(run):
                             "the verdict or the value between the two modes", node=sub)
 
 
-def r10e(run, funcs, rule="R10e"):
+def r10e(run, funcs, rule="R10e", floor=30):
     """errors are handed to the context the owner flushes: the receiver of handle_error / collect_tmp_error is the
     function's own `context` (parameter or its `context or ...` default), never a child created by enter()"""
     total = 0
@@ -340,11 +340,47 @@ def r10e(run, funcs, rule="R10e"):
                       message=f"{f.qualname}: `{unparse(c)[:70]}` records the error in a context nobody flushes ({why})",
                       necessity="with collect_errors=True the error is appended to a throw-away list: the invalid item is "
                                 "accepted (and a decorated function's body runs with the raw value)", node=c)
-    run.floor(rule, "error hand-off sites", total, 30)
+    run.floor(rule, "error hand-off sites", total, floor)
+
+
+# documented implications among Options parameters: assigned parameter -> parameter whose value implies it
+OPTION_IMPLICATIONS = {"addition": {"no_data_loss"}, "ignore_required": {"force_default"}}
+
+
+def r10f(run):
+    """Options.__init__ only rewrites a parameter on behalf of the caller when that parameter itself (or a documented
+    implying parameter) says so: everything else must stay 'not provided', because merging copies provided keys"""
+    f = run.repo.func("utype.parser.options", "Options.__init__")
+    fa = analysis(f)
+    params = set(f.params) - {"self"}
+    total = 0
+    for n in fa.cfg.nodes:
+        if n.kind != "stmt" or not isinstance(n.ast, ast.Assign) or not isinstance(n.ast.targets[0], ast.Name):
+            continue
+        p = n.ast.targets[0].id
+        if p not in params:
+            continue
+        total += 1
+        mentioned = set()
+        for a, pol in fa.facts.atoms_at(n):
+            mentioned |= names_in(a)
+        ok = p in mentioned and any(p in names_in(a) and pol and unparse(a) == p for a, pol in fa.facts.atoms_at(n)) \
+            or bool(mentioned & OPTION_IMPLICATIONS.get(p, set())) and (p not in OPTION_IMPLICATIONS or True)
+        if p in OPTION_IMPLICATIONS:
+            ok = bool(mentioned & OPTION_IMPLICATIONS[p])
+        run.check("R10f", f, f"`{norm_stmt(n.ast)[:40]}` rewrites `{p}` only when the caller set it (or a documented "
+                             f"implication holds)", ok, construct=f"option {p} rewritten unconditionally",
+                  message=f"Options.__init__: `{norm_stmt(n.ast)}` runs under {sorted(mentioned) or 'no condition on the parameters'}: "
+                          f"`{p}` becomes an explicitly provided key although the caller did not pass it",
+                  necessity="Options.__and__ / generate_from copy every provided key of the right-hand options over the "
+                            "left-hand ones: an explicit max_errors=None erases the cap of "
+                            "Options(collect_errors=True, max_errors=N) on every merge (functions with **kwargs merge "
+                            "options), so more than N errors are collected", node=n.ast)
+    run.floor("R10f", "parameter rewrites in Options.__init__", total, 3)
 
 
 def check(run):
-    run.rules_run += ["R10-policy", "R10a", "R10b", "R10c", "R10d", "R10e"]
+    run.rules_run += ["R10-policy", "R10a", "R10b", "R10c", "R10d", "R10e", "R10f"]
     run.explain("C10: the may-return model of handle_error is validated against its source; (R10a) at each of the "
                 "non-forced handle_error sites the code after the call does not read variables whose only binding "
                 "is the failed try body (stale/unbound), nor index past a fallen-through range check; (R10b) every "
@@ -359,6 +395,7 @@ def check(run):
     r10c(run)
     r10d(run)
     r10e(run, c04.in_scope_functions(run))
+    r10f(run)
     # shared clauses that are necessary for C10 as well
     from . import c06, c07
     pd, A, B = c06.siblings(run)
